@@ -208,19 +208,19 @@ Proof. unfold step_rtsp. break_step; simpl; auto. Qed.
 
 Lemma step_wsopen_auth fx s kind p t ch h :
   toks (fst (step_wsopen fx s kind p t ch h)) = toks s /\ grants (fst (step_wsopen fx s kind p t ch h)) = grants s.
-Proof. unfold step_wsopen. break_step; simpl; auto. Qed.
+Proof. unfold step_wsopen, step_wsopen_in. break_step; simpl; auto. Qed.
 
 Lemma step_wsrtsp_auth fx w s k m p :
   toks (fst (step_wsrtsp fx w s k m p)) = toks s /\ grants (fst (step_wsrtsp fx w s k m p)) = grants s.
 Proof. unfold step_wsrtsp. break_step; simpl; auto. Qed.
 
-Lemma step_wsp_auth fx s k m :
-  toks (fst (step_wsp fx s k m)) = toks s /\ grants (fst (step_wsp fx s k m)) = grants s.
+Lemma step_wsp_auth fx w s k m :
+  toks (fst (step_wsp fx w s k m)) = toks s /\ grants (fst (step_wsp fx w s k m)) = grants s.
 Proof. unfold step_wsp. break_step; simpl; auto. Qed.
 
 Lemma step_http_auth fx s kind p t q h :
   fst (step_http fx s kind p t q h) = s.
-Proof. unfold step_http. break_step; simpl; auto. Qed.
+Proof. unfold step_http, step_http_in. break_step; simpl; auto. Qed.
 
 Lemma step_api_auth s ep t u b n h :
   toks (fst (step_api s ep t u b n h)) = toks s /\ grants (fst (step_api s ep t u b n h)) = grants s.
@@ -239,7 +239,7 @@ Proof.
   - destruct (step_rtsp_auth fx w s k m path cr). eapply tok_inv_ext; eauto.
   - destruct (step_wsopen_auth fx s kind path t chan hdrs). eapply tok_inv_ext; eauto.
   - destruct (step_wsrtsp_auth fx w s k m path). eapply tok_inv_ext; eauto.
-  - destruct (step_wsp_auth fx s k m). eapply tok_inv_ext; eauto.
+  - destruct (step_wsp_auth fx w s k m). eapply tok_inv_ext; eauto.
   - rewrite step_http_auth. exact H.
   - destruct (step_api_auth s ep t u upd_pw name hdrs). eapply tok_inv_ext; eauto.
 Qed.
@@ -354,23 +354,23 @@ Proof.
 Qed.
 
 Lemma allowed_rtsp s k m path cr :
-  allowed s (ERtsp k m path cr) =
+  allowed_chk s (ERtsp k m path cr) =
   match fst (digest_check true (users s) (get_conn s k) cr) with
   | Some u => spec_allows (users s) u (fst (rtsp_target false (get_conn s k) m path))
                           (snd (rtsp_target false (get_conn s k) m path))
   | None => false
   end.
 Proof.
-  unfold allowed. cbn [identity target]. rewrite digest_check_identity.
+  unfold allowed_chk. cbn [identity target]. rewrite digest_check_identity.
   destruct (digest_identity _ _ _); [|reflexivity]. destruct (rtsp_target _ _ _ _); reflexivity.
 Qed.
 
 Lemma judge_rtsp w s k m path cr :
   let o := snd (step_rtsp true w s k m path cr) in
-  judge w s (ERtsp k m path cr) o = true /\ judge_reg w s (ERtsp k m path cr) o = true.
+  judge_chk w s (ERtsp k m path cr) o = true /\ judge_reg_chk w s (ERtsp k m path cr) o = true.
 Proof.
-  unfold judge, judge_reg, step_rtsp. rewrite allowed_rtsp.
-  cbn [is_request identity granted accepted keepalive feasible unauth_code judge_join].
+  unfold judge_chk, judge_reg_chk, step_rtsp. rewrite allowed_rtsp.
+  cbn [is_request identity granted accepted keepalive feasible unauth_code judge_join_chk].
   set (c := get_conn s k).
   destruct (c_kind c =? K_RTSP) eqn:Ek; cbn [negb].
   2:{ cbn. rewrite zlist_eqb_refl. rewrite !andb_false_r. cbn. destruct (digest_identity _ _ _); auto. }
@@ -408,17 +408,17 @@ Qed.
 
 (* ws-rtsp: the same handlers, the user the upgrade verified *)
 Lemma allowed_wsrtsp s k m path :
-  allowed s (EWsRtsp k m path) =
+  allowed_chk s (EWsRtsp k m path) =
   spec_allows (users s) (c_user (get_conn s k)) (fst (rtsp_target true (get_conn s k) m path))
               (snd (rtsp_target true (get_conn s k) m path)).
-Proof. unfold allowed. cbn [identity target]. destruct (rtsp_target _ _ _ _); reflexivity. Qed.
+Proof. unfold allowed_chk. cbn [identity target]. destruct (rtsp_target _ _ _ _); reflexivity. Qed.
 
 Lemma judge_wsrtsp w s k m path :
   let o := snd (step_wsrtsp true w s k m path) in
-  judge w s (EWsRtsp k m path) o = true /\ judge_reg w s (EWsRtsp k m path) o = true.
+  judge_chk w s (EWsRtsp k m path) o = true /\ judge_reg_chk w s (EWsRtsp k m path) o = true.
 Proof.
-  unfold judge, judge_reg, step_wsrtsp. rewrite allowed_wsrtsp.
-  cbn [is_request identity granted accepted keepalive feasible unauth_code judge_join].
+  unfold judge_chk, judge_reg_chk, step_wsrtsp. rewrite allowed_wsrtsp.
+  cbn [is_request identity granted accepted keepalive feasible unauth_code judge_join_chk].
   set (c := get_conn s k).
   destruct (c_kind c =? K_WSRTSP) eqn:Ek; cbn [negb].
   2:{ cbn. rewrite zlist_eqb_refl. rewrite !andb_false_r. cbn. auto. }
@@ -495,10 +495,10 @@ Proof.
 Qed.
 
 Lemma judge_wsp w s k m path :
-  judge w s (EWsp k m path) (snd (step_wsp true s k m)) = true.
+  judge_chk w s (EWsp k m path) (snd (step_wsp true w s k m)) = true.
 Proof.
-  unfold judge, step_wsp, allowed.
-  cbn [is_request identity target granted accepted keepalive feasible unauth_code judge_join].
+  unfold judge_chk, step_wsp, allowed_chk.
+  cbn [is_request identity target granted accepted keepalive feasible unauth_code judge_join_chk].
   set (c := get_conn s k).
   destruct (c_kind c =? K_WSP) eqn:Ek; cbn [negb].
   2:{ cbn. rewrite !andb_false_r. cbn. auto. }
@@ -564,24 +564,27 @@ Proof.
 Qed.
 
 Lemma judge_http w s kind path t q h :
-  tok_inv s -> judge w s (EHttp kind path t q h) (snd (step_http true s kind path t q h)) = true.
+  tok_inv s -> judge_chk w s (EHttp kind path t q h) (snd (step_http true s kind path t q h)) = true.
 Proof.
-  intros H. unfold judge, step_http, allowed.
-  cbn [is_request identity target granted accepted keepalive feasible unauth_code judge_join].
+  intros H. unfold judge_chk, step_http, step_http_in, allowed_chk, url_path.
+  cbn [is_request identity target granted accepted keepalive feasible unauth_code judge_join_chk].
+  set (cp := canonical_path path).
+  destruct (mux_ok (http_url kind path q)); cbn [negb andb].
+  2:{ cbn. rewrite !andb_false_r. destruct (token_identity s t); reflexivity. }
   rewrite stream_gate_spec by exact H.
   destruct (token_identity s t) as [u|]; [|reflexivity].
-  destruct (spec_allows (users s) u APull path) eqn:Ea; cbn [negb Z.eqb]; [|reflexivity].
-  cbn. destruct (live (reg s) path) as [o|]; [|reflexivity].
+  destruct (spec_allows (users s) u APull cp) eqn:Ea; cbn [negb Z.eqb]; [|reflexivity].
+  cbn. destruct (live (reg s) cp) as [o|]; [|reflexivity].
   destruct (kind =? 1) eqn:E1; destruct (kind =? 2) eqn:E2; destruct (kind =? 0) eqn:E0; destruct (o =? 1);
     destruct (seg_listed q); try reflexivity;
     try (apply Z.eqb_eq in E1); try (apply Z.eqb_eq in E2); try (apply Z.eqb_eq in E0); subst; discriminate.
 Qed.
 
 Lemma judge_api w s ep t u b n h :
-  tok_inv s -> judge w s (EApi ep t u b n h) (snd (step_api s ep t u b n h)) = true.
+  tok_inv s -> judge_chk w s (EApi ep t u b n h) (snd (step_api s ep t u b n h)) = true.
 Proof.
-  intros H. unfold judge, step_api, allowed, api_gate, api_gate_h.
-  cbn [is_request identity target granted accepted keepalive feasible unauth_code judge_join snd o_code ob].
+  intros H. unfold judge_chk, step_api, allowed_chk, api_gate, api_gate_h.
+  cbn [is_request identity target granted accepted keepalive feasible unauth_code judge_join_chk snd o_code ob].
   destruct (ep_open ep) eqn:Eo; [reflexivity|]. cbn [negb].
   rewrite auth_gate_spec by exact H.
   destruct (token_identity s t) as [v|]; [|reflexivity].
@@ -637,7 +640,12 @@ Proof.
         apply not_wsp_ok. destruct rot; simpl; rewrite Ek; discriminate.
     + unfold conns_ok. simpl. apply Forall_set_nth; [exact H|].
       apply not_wsp_ok. simpl. rewrite Ek. discriminate.
-  - unfold step_wsopen. destruct (stream_gate fx s t path None hdrs) as [code uname].
+  - unfold step_wsopen. destruct (negb (mux_ok (ws_url kind path))).
+    { destruct ((kind =? 0) || (kind =? 1)); [|exact H].
+      unfold conns_ok. simpl. apply Forall_app. split; [exact H|]. constructor; [|constructor].
+      intros Hk. discriminate. }
+    unfold step_wsopen_in. generalize (url_path fx path). intros path'.
+    destruct (stream_gate fx s t path' None hdrs) as [code uname].
     destruct (negb (code =? 200)).
     + destruct ((kind =? 0) || (kind =? 1)); [|exact H].
       unfold conns_ok. simpl. apply Forall_app. split; [exact H|]. constructor; [|constructor].
@@ -682,16 +690,22 @@ Proof. induction 1; [apply conns_ok_init|apply step_conns_ok; assumption]. Qed.
 
 Lemma judge_wsopen w s kind path t chan h :
   tok_inv s -> conns_ok s ->
-  judge w s (EWsOpen kind path t chan h) (snd (step_wsopen true s kind path t chan h)) = true.
+  judge_chk w s (EWsOpen kind path t chan h) (snd (step_wsopen true s kind path t chan h)) = true.
 Proof.
-  intros H Hok. unfold judge, step_wsopen, allowed.
-  cbn [is_request identity target granted accepted keepalive feasible unauth_code judge_join].
+  intros H Hok. unfold judge_chk, step_wsopen, step_wsopen_in, allowed_chk, url_path.
+  cbn [is_request identity target granted accepted keepalive feasible unauth_code judge_join_chk].
+  set (cp := canonical_path path).
+  destruct (mux_ok (ws_url kind path)); cbn [negb andb].
+  2:{ assert (Hsnd : forall (a b : state) (x : bool), snd (if x then a else b, ob 301 0 false 0) = ob 301 0 false 0)
+        by (intros; reflexivity).
+      rewrite Hsnd. cbn. rewrite !andb_false_r. cbn.
+      destruct (token_identity s t); cbn; destruct (kind =? 2); reflexivity. }
   rewrite stream_gate_spec by exact H.
   destruct (token_identity s t) as [u|].
   2:{ cbn. destruct (kind =? 2); reflexivity. }
-  destruct (spec_allows (users s) u APull path) eqn:Ea; cbn [negb Z.eqb].
+  destruct (spec_allows (users s) u APull cp) eqn:Ea; cbn [negb Z.eqb].
   2:{ cbn. destruct (kind =? 2); [|reflexivity].
-      destruct (c_kind _ =? _), (bytes_eqb u _), (bytes_eqb path _); reflexivity. }
+      destruct (c_kind _ =? _), (bytes_eqb u _), (bytes_eqb cp _); reflexivity. }
   cbn [negb]. destruct (kind =? 0) eqn:E0.
   { apply Z.eqb_eq in E0. subst kind. reflexivity. }
   destruct (kind =? 1) eqn:E1.
@@ -700,7 +714,7 @@ Proof.
   set (c := get_conn s chan). cbn [negb orb].
   destruct (c_kind c =? K_WSP) eqn:Ek; cbn [andb].
   2:{ cbn. reflexivity. }
-  destruct (bytes_eqb path (c_wspath c)) eqn:Ep; destruct (bytes_eqb u (c_user c)) eqn:Eu; cbn; try reflexivity.
+  destruct (bytes_eqb cp (c_wspath c)) eqn:Ep; destruct (bytes_eqb u (c_user c)) eqn:Eu; cbn; try reflexivity.
   apply bytes_eqb_eq in Ep.
   pose proof (get_conn_ok s chan Hok) as Hc. fold c in Hc. apply Z.eqb_eq in Ek.
   rewrite (Hc Ek), <- Ep. unfold spec_allows in Ea. rewrite Ea. rewrite orb_true_r. reflexivity.
@@ -711,7 +725,7 @@ Qed.
 
 Theorem step_judged w s ev :
   tok_inv s -> conns_ok s ->
-  judge w s ev (snd (step w s ev)) = true /\ judge_reg w s ev (snd (step w s ev)) = true.
+  judge_chk w s ev (snd (step w s ev)) = true /\ judge_reg_chk w s ev (snd (step w s ev)) = true.
 Proof.
   intros H Hok. destruct ev; unfold step; cbn [step_gen]; try (split; reflexivity).
   - apply judge_rtsp.
@@ -722,12 +736,12 @@ Proof.
   - split; [apply judge_api; assumption|reflexivity].
 Qed.
 
-Lemma run_ok_from w s evs : tok_inv s -> conns_ok s -> ok_run w s evs (run w s evs) = true.
+Lemma run_ok_from w s evs : tok_inv s -> conns_ok s -> ok_run_chk w s evs (run w s evs) = true.
 Proof.
   revert s. induction evs as [|e evs IH]; intros s H Hok; [reflexivity|].
-  unfold run in *. cbn [run_gen ok_run].
+  unfold run in *. cbn [run_gen ok_run_chk].
   destruct (step_judged w s e H Hok) as [J1 J2]. unfold step in *.
-  destruct (step_gen true w s e) as [s1 o] eqn:Es. cbn [ok_run fst snd] in *.
+  destruct (step_gen true w s e) as [s1 o] eqn:Es. cbn [ok_run_chk fst snd] in *.
   rewrite J1, J2. cbn [andb].
   apply IH.
   - pose proof (step_tok_inv true w s e H) as H1. rewrite Es in H1. exact H1.
@@ -736,12 +750,12 @@ Qed.
 
 (* the oracle applied to the implementation accepts the model on every history *)
 Theorem model_passes w users0 ext evs :
-  ok_run w (state0 users0 ext) evs (run w (state0 users0 ext) evs) = true.
+  ok_run_chk w (state0 users0 ext) evs (run w (state0 users0 ext) evs) = true.
 Proof. apply run_ok_from; [apply tok_inv_init|apply conns_ok_init]. Qed.
 
 Lemma reachable_judged w s ev :
   reachable w s ->
-  judge w s ev (snd (step w s ev)) = true /\ judge_reg w s ev (snd (step w s ev)) = true.
+  judge_chk w s ev (snd (step w s ev)) = true /\ judge_reg_chk w s ev (snd (step w s ev)) = true.
 Proof. intros H. apply step_judged; [eapply reachable_tok_inv|eapply reachable_conns_ok]; eauto. Qed.
 
 (* ---- the clauses of the property, read off the judgement ---- *)
@@ -753,10 +767,10 @@ Definition act_eqb (a b : action) : bool :=
   end.
 
 Lemma allowed_inv s ev :
-  allowed s ev = true ->
+  allowed_chk s ev = true ->
   exists u, identity s ev = Some u /\ spec_allows (users s) u (fst (target s ev)) (snd (target s ev)) = true.
 Proof.
-  unfold allowed. destruct (identity s ev) as [u|]; [|discriminate].
+  unfold allowed_chk. destruct (identity s ev) as [u|]; [|discriminate].
   destruct (target s ev) as [act p]. intros H. exists u. auto.
 Qed.
 
@@ -769,13 +783,13 @@ Lemma spec_allows_push t u p :
 Proof. unfold spec_allows. destruct (rights_now t u) as [r|]; [|discriminate]. eauto. Qed.
 
 Lemma judge_parts w s ev o :
-  is_request ev = true -> judge w s ev o = true ->
-  (granted ev o = true -> allowed s ev = true \/ keepalive s ev = true) /\
-  (allowed s ev = true -> feasible w s ev = true -> accepted ev o = true) /\
+  is_request ev = true -> judge_chk w s ev o = true ->
+  (granted ev o = true -> allowed_chk s ev = true \/ keepalive s ev = true) /\
+  (allowed_chk s ev = true -> feasible w s ev = true -> accepted ev o = true) /\
   (identity s ev = None -> unauth_code ev o = true) /\
-  judge_join s ev o = true.
+  judge_join_chk s ev o = true.
 Proof.
-  intros Hr H. unfold judge in H. rewrite Hr in H.
+  intros Hr H. unfold judge_chk in H. rewrite Hr in H.
   apply andb_true_iff in H as [H H4]. apply andb_true_iff in H as [H H3].
   apply andb_true_iff in H as [H1 H2].
   repeat split; auto.
@@ -812,7 +826,7 @@ Proof.
   intros Hr o Hm. destruct (reachable_judged w s (EWsOpen 2 path t chan h) Hr) as [J _].
   assert (Hq : is_request (EWsOpen 2 path t chan h) = true) by reflexivity.
   destruct (judge_parts _ _ _ _ Hq J) as (_ & _ & _ & Pj). fold o in Pj.
-  unfold judge_join in Pj. cbn [Z.eqb identity] in Pj.
+  unfold judge_join_chk in Pj. cbn [Z.eqb identity] in Pj.
   assert (Hb : o_media o || (o_aux o =? 200) = true).
   { destruct Hm as [Hm|Hm]; rewrite Hm; [reflexivity|apply orb_true_r]. }
   destruct (token_identity s t) as [u|].
@@ -834,7 +848,7 @@ Theorem publish_requires_push w s ev :
               fst (target s ev) = APush /\ permits r PUSH (snd (target s ev)) = true.
 Proof.
   intros Hr o He Hd. destruct (reachable_judged w s ev Hr) as [_ J]. fold o in J.
-  destruct ev; try contradiction; unfold judge_reg in J; rewrite Hd in J;
+  destruct ev; try contradiction; unfold judge_reg_chk in J; rewrite Hd in J;
     apply andb_true_iff in J as [J Ha]; apply andb_true_iff in J as [Jm _];
     apply allowed_inv in Ha as (u & Hi & Hs); apply Z.eqb_eq in Jm; subst m.
   - assert (Ht : fst (target s (ERtsp k M_RECORD path cr)) = APush).
@@ -855,7 +869,7 @@ Proof.
   - unfold step_refresh. destruct (is_none t); [reflexivity|].
     assert (Hc : reg (fst (refresh s t)) = reg s) by (unfold refresh; break_step; reflexivity).
     destruct (refresh s t). exact Hc.
-  - unfold step_wsopen. break_step; reflexivity.
+  - unfold step_wsopen, step_wsopen_in. break_step; reflexivity.
   - unfold step_wsp. break_step; reflexivity.
   - rewrite step_http_auth. reflexivity.
   - unfold step_api. break_step; reflexivity.
@@ -890,7 +904,7 @@ Proof.
   intros Hr Hq Hi. destruct (reachable_judged w s ev Hr) as [J _].
   destruct (judge_parts _ _ _ _ Hq J) as (P1 & _ & P3 & _).
   destruct (granted ev (snd (step w s ev))) eqn:Hg.
-  - destruct (P1 eq_refl) as [Ha|Ha]; [|auto]. unfold allowed in Ha. rewrite Hi in Ha. discriminate.
+  - destruct (P1 eq_refl) as [Ha|Ha]; [|auto]. unfold allowed_chk in Ha. rewrite Hi in Ha. discriminate.
   - left. auto.
 Qed.
 
@@ -927,10 +941,10 @@ Proof.
   - cbn [grants set_toks]. unfold spec_access. rewrite nth_error_kill, Nat.eqb_refl, Hn. reflexivity.
 Qed.
 
-(* the holder of the right is not refused: authenticated, allowed by the rights as saved now, request in order *)
+(* the holder of the right is not refused: authenticated, allowed_chk by the rights as saved now, request in order *)
 Theorem holder_not_refused w s ev :
   reachable w s -> is_request ev = true ->
-  allowed s ev = true -> feasible w s ev = true ->
+  allowed_chk s ev = true -> feasible w s ev = true ->
   accepted ev (snd (step w s ev)) = true.
 Proof.
   intros Hr Hq Ha Hf. destruct (reachable_judged w s ev Hr) as [J _].
@@ -1102,7 +1116,8 @@ Proof.
     rewrite Hd. clear Hd. destruct (digest_check _ _ _ _) as [[uname|] rot]; [|simp; auto].
     cbn [reg set_users]. rewrite (rtsp_handle_ext _ _ _ _ _ _ _ _ (fun a p => eq_sym (Hp uname a p))).
     destruct (rtsp_handle _ _ _ _ _ _ _) as [[c2 code] pub]. simp. auto.
-  - unfold step_wsopen, stream_gate, stream_gate_h, auth_gate, access_check, get_conn. cbn [users toks now conns reg ctr set_users].
+  - unfold step_wsopen. destruct (negb (mux_ok (ws_url kind path))); [simp; break_step; simp; auto|].
+    unfold step_wsopen_in, stream_gate, stream_gate_h, auth_gate, access_check, get_conn. cbn [users toks now conns reg ctr set_users].
     destruct (if is_none t then None else _) as [uname|]; [|simp; break_step; simp; auto].
     rewrite <- Hp. destruct (perm_go _ _ _ _); cbn [negb Z.eqb Pos.eqb]; break_step; simp; auto.
   - unfold step_wsrtsp. unfold get_conn. cbn [conns users reg set_users].
@@ -1113,7 +1128,8 @@ Proof.
     destruct (negb _); [simp; auto|].
     rewrite (wsp_handle_ext _ _ _ _ _ _ (fun a p => eq_sym (Hp _ a p))).
     destruct (wsp_handle _ _ _ _ _) as [c2 code]. simp. auto.
-  - unfold step_http, stream_gate, stream_gate_h, auth_gate, access_check. cbn [users toks now reg set_users].
+  - unfold step_http. destruct (negb (mux_ok (http_url kind path seq))); [simp; auto|].
+    unfold step_http_in, stream_gate, stream_gate_h, auth_gate, access_check. cbn [users toks now reg set_users].
     destruct (if is_none t then None else _) as [uname|]; [|simp; auto].
     rewrite <- Hp. destruct (perm_go _ _ _ _); cbn; break_step; simp; auto.
   - unfold step_api, api_gate, api_gate_h, auth_gate, access_check. cbn [users toks now set_users].
@@ -1228,8 +1244,8 @@ Definition nv_evs : list event :=
 Theorem identity_is_token_user w s ev : step w s ev = step w s (strip_hdrs ev).
 Proof.
   destruct ev; try reflexivity; unfold step; cbn [step_gen strip_hdrs].
-  - unfold step_wsopen. rewrite stream_gate_hdrs. reflexivity.
-  - unfold step_http. rewrite stream_gate_hdrs. reflexivity.
+  - unfold step_wsopen, step_wsopen_in. rewrite stream_gate_hdrs. reflexivity.
+  - unfold step_http, step_http_in. rewrite stream_gate_hdrs. reflexivity.
   - unfold step_api. rewrite api_gate_hdrs. reflexivity.
 Qed.
 
@@ -1262,3 +1278,244 @@ Theorem identity_header_add_refuted :
   stream_gate true s1 (TA 0) p_x None forged = (403, n_bob) /\
   api_gate s1 EP_USERS (TA 0) forged = 403.
 Proof. vm_compute. repeat split; reflexivity. Qed.
+
+(* ------------------------------------------------------------------ *)
+(* K. the decision is on the resource actually served                    *)
+
+Lemma blist_eqb_eq a b : blist_eqb a b = true -> a = b.
+Proof.
+  revert b. induction a as [|x a IH]; destruct b as [|y b]; simpl; try discriminate; auto.
+  intros H. apply andb_true_iff in H as [H1 H2]. apply bytes_eqb_eq in H1. f_equal; auto.
+Qed.
+
+Lemma existsb_pointwise {A} (f g : A -> bool) l : (forall x, f x = g x) -> existsb f l = existsb g l.
+Proof. intros H. induction l as [|x l IH]; simpl; [reflexivity|]. rewrite H, IH. reflexivity. Qed.
+
+(* two spellings with the same segments (blanks around a segment and letter case aside) are the same path to the
+   documented pattern language *)
+Lemma spec_permit_same_segs admin r p q : same_segs p q = true -> spec_permit admin r p = spec_permit admin r q.
+Proof.
+  intros H. apply blist_eqb_eq in H. unfold spec_permit. apply existsb_pointwise. intros item.
+  unfold spec_pattern. rewrite H. reflexivity.
+Qed.
+
+Lemma spec_allows_path_ok t u act p :
+  path_ok p = true -> spec_allows t u act (served_key p) = spec_allows t u act p.
+Proof.
+  intros H. unfold path_ok in H. unfold spec_allows, permits.
+  destruct act; try reflexivity; destruct (rights_now t u) as [[[a push] pull]|]; try reflexivity;
+    cbn; symmetry; apply spec_permit_same_segs; exact H.
+Qed.
+
+Lemma ev_ok_target s ev : ev_ok s ev = true -> path_ok (snd (target s ev)) = true.
+Proof. unfold ev_ok. intros H. apply andb_true_iff in H as [H _]. exact H. Qed.
+
+Lemma allowed_ok s ev : ev_ok s ev = true -> allowed s ev = allowed_chk s ev.
+Proof.
+  intros H. apply ev_ok_target in H. unfold allowed, allowed_chk.
+  destruct (identity s ev) as [u|]; [|reflexivity]. destruct (target s ev) as [act p]. cbn [snd] in H.
+  apply spec_allows_path_ok. exact H.
+Qed.
+
+Lemma judge_join_ok s ev o : ev_ok s ev = true -> judge_join_strict s ev o = judge_join_chk s ev o.
+Proof.
+  intros H. destruct ev; try reflexivity. unfold judge_join_strict, judge_join_chk.
+  destruct (kind =? 2) eqn:E2; [|reflexivity].
+  unfold ev_ok in H. cbn [target snd] in H. rewrite E2 in H. apply andb_true_iff in H as [H1 H2].
+  destruct (identity s (EWsOpen kind path t chan hdrs)) as [u|]; [|reflexivity].
+  rewrite (spec_allows_path_ok _ _ _ _ H1), (spec_allows_path_ok _ _ _ _ H2). reflexivity.
+Qed.
+
+Lemma judge_ok w s ev o : ev_ok s ev = true -> judge_strict w s ev o = judge_chk w s ev o.
+Proof.
+  intros H. unfold judge_strict, judge_chk. rewrite (allowed_ok _ _ H), (judge_join_ok _ _ _ H). reflexivity.
+Qed.
+
+Lemma judge_reg_ok w s ev o : ev_ok s ev = true -> judge_reg_strict w s ev o = judge_reg_chk w s ev o.
+Proof.
+  intros H. unfold judge_reg_strict, judge_reg_chk. rewrite (allowed_ok _ _ H). reflexivity.
+Qed.
+
+(* what is served is the resource decided about *)
+Lemma rtsp_handle_src watch ws pm r self c m path c2 code pub :
+  rtsp_handle ws pm r self c m path = (c2, code, pub) ->
+  let r2 := match pub with Some p => reg_put r p self | None => r end in
+  src_aux watch m code c2 r2 = 0 \/
+  ((m =? M_PLAY) && (c_status c =? 2) || (m =? M_RECORD) && (c_status c =? 3)) = true \/
+  src_aux watch m code c2 r2 = served_index watch (canonical_path (snd (rtsp_target ws c m path))).
+Proof.
+  intros H. unfold rtsp_handle, rtsp_target, src_aux in *. unfold_m.
+  split_m m; cbn in *; try discriminate;
+    break_hyp H; inversion H; subst; cbn in *; unfold_m;
+    repeat match goal with H : (_ =? _) = false |- _ => rewrite H in * end; cbn in *; auto;
+    repeat match goal with
+           | H : (?x =? 2) = true |- context [?x =? 2] => rewrite H
+           | H : (?x =? 2) = false |- context [?x =? 2] => rewrite H
+           end; cbn; auto;
+    repeat match goal with |- context [match ?x with _ => _ end] => destruct x end; auto.
+Qed.
+
+Lemma wsp_handle_src watch pm r c m c2 code :
+  wsp_handle true pm r c m = (c2, code) ->
+  src_aux watch m code c2 r = 0 \/ ((m =? M_PLAY) && (c_status c =? 2)) = true \/
+  src_aux watch m code c2 r = served_index watch (canonical_path (if m =? M_DESCRIBE then c_wspath c else c_path c)).
+Proof.
+  intros H. destruct (c_status c =? 1) eqn:S1; destruct (c_status c =? 2) eqn:S2;
+  unfold wsp_handle, src_aux in *; rewrite ?S1, ?S2 in *; unfold_m;
+  (split_m m; cbn in *; try discriminate;
+    break_hyp H; inversion H; subst; cbn in *; unfold_m;
+    repeat match goal with H : (_ =? _) = false |- _ => rewrite H in * end; cbn in *; auto;
+    repeat match goal with
+           | H : (?x =? 2) = true |- context [?x =? 2] => rewrite H
+           | H : (?x =? 2) = false |- context [?x =? 2] => rewrite H
+           end; cbn; auto;
+    repeat match goal with |- context [match ?x with _ => _ end] => destruct x end; auto;
+    try (destruct (c_status _ =? 1), (c_status _ =? 2); cbn in *; try discriminate; auto)).
+Qed.
+
+Lemma or3_b (a : Z) (k : bool) (x : Z) : a = 0 \/ k = true \/ a = x -> (a =? 0) || k || (a =? x) = true.
+Proof.
+  intros [H|[H|H]]; subst.
+  - reflexivity.
+  - rewrite orb_true_r. reflexivity.
+  - rewrite Z.eqb_refl. apply orb_true_r.
+Qed.
+
+Theorem step_src w s ev : judge_src w s ev (snd (step w s ev)) = true.
+Proof.
+  destruct ev; try reflexivity; unfold step; cbn [step_gen judge_src keepalive target snd served_key].
+  - unfold step_rtsp. set (c := get_conn s k).
+    destruct (c_kind c =? K_RTSP); cbn [negb]; [|reflexivity].
+    destruct (legal (c_status c) m); cbn [negb]; [|reflexivity].
+    destruct (digest_check true (users s) c cr) as [[uname|] rot].
+    + destruct (rtsp_handle false (perm_go (users s) uname) (reg s) (2 + Z.of_nat k) c m path) as [[c2 code] pub] eqn:Eh.
+      cbn [snd with_reg o_aux ob]. apply or3_b. exact (rtsp_handle_src w _ _ _ _ _ _ _ _ _ _ Eh).
+    + cbn [snd with_reg o_aux ob]. unfold src_aux.
+      replace (401 =? 200) with false by reflexivity. rewrite andb_false_r.
+      destruct (m =? M_PLAY); cbn [andb]; [|reflexivity].
+      destruct (c_status c =? 2); cbn [andb orb]; [|reflexivity].
+      rewrite orb_true_r. reflexivity.
+  - unfold step_wsrtsp. set (c := get_conn s k).
+    destruct (c_kind c =? K_WSRTSP); cbn [negb]; [|reflexivity].
+    destruct (legal (c_status c) m); cbn [negb]; [|reflexivity].
+    destruct (rtsp_handle true (perm_go (users s) (c_user c)) (reg s) (2 + Z.of_nat k) c m path) as [[c2 code] pub] eqn:Eh.
+    cbn [snd with_reg o_aux ob]. apply or3_b. exact (rtsp_handle_src w _ _ _ _ _ _ _ _ _ _ Eh).
+  - unfold step_wsp. set (c := get_conn s k).
+    destruct (c_kind c =? K_WSP); cbn [negb]; [|reflexivity].
+    destruct (wsp_handle true (perm_go (users s) (c_user c)) (reg s) c m) as [c2 code] eqn:Eh.
+    cbn [snd o_aux ob]. destruct ((m =? M_PLAY) && negb (c_data c2)); [reflexivity|].
+    apply or3_b. pose proof (wsp_handle_src w _ _ _ _ _ _ Eh) as Hs.
+    destruct Hs as [Hs|[Hs|Hs]]; auto.
+Qed.
+
+Theorem step_judged_served w s ev :
+  tok_inv s -> conns_ok s ->
+  judge w s ev (snd (step w s ev)) = true /\ judge_reg w s ev (snd (step w s ev)) = true.
+Proof.
+  intros H Hok. destruct (step_judged w s ev H Hok) as [J1 J2]. unfold judge, judge_reg.
+  destruct (ev_ok s ev) eqn:E; [|auto]. rewrite (judge_ok _ _ _ _ E), (judge_reg_ok _ _ _ _ E). auto.
+Qed.
+
+Lemma run_ok_served_from w s evs : tok_inv s -> conns_ok s -> ok_run w s evs (run w s evs) = true.
+Proof.
+  revert s. induction evs as [|e evs IH]; intros s H Hok; [reflexivity|].
+  unfold run in *. cbn [run_gen ok_run].
+  destruct (step_judged_served w s e H Hok) as [J1 J2]. pose proof (step_src w s e) as J3. unfold step in *.
+  destruct (step_gen true w s e) as [s1 o] eqn:Es. cbn [ok_run fst snd] in *.
+  rewrite J1, J2, J3. cbn [andb].
+  apply IH.
+  - pose proof (step_tok_inv true w s e H) as H1. rewrite Es in H1. exact H1.
+  - pose proof (step_conns_ok true w s e Hok) as H1. rewrite Es in H1. exact H1.
+Qed.
+
+(* the oracle applied to the implementation (decision on the served resource) accepts the model on every history *)
+Theorem model_passes_served w users0 ext evs :
+  ok_run w (state0 users0 ext) evs (run w (state0 users0 ext) evs) = true.
+Proof. apply run_ok_served_from; [apply tok_inv_init|apply conns_ok_init]. Qed.
+
+(* served(resource) => permit(user, canonical resource): whatever is handed out on a pull-type request, on any
+   entry point, is the stream registered under served_key p = canonical_path p (p the path given to the
+   lookup), and the caller's rights as saved now cover that key *)
+Theorem served_requires_permit w s ev :
+  reachable w s ->
+  let o := snd (step w s ev) in
+  is_request ev = true -> fst (target s ev) = APull -> ev_ok s ev = true ->
+  granted ev o = true -> keepalive s ev = false ->
+  exists u r, identity s ev = Some u /\ rights_now (users s) u = Some r /\
+              permits r PULL (served_key (snd (target s ev))) = true.
+Proof.
+  intros Hr o Hq Ht He Hg Hk.
+  destruct (media_requires_pull w s ev Hr Hq Ht Hg Hk) as (u & r & Hi & Hn & Hp).
+  exists u, r. repeat split; auto.
+  apply ev_ok_target in He. unfold path_ok in He.
+  destruct r as [[a push] pull]. cbn in *. rewrite <- (spec_permit_same_segs a pull _ _ He). exact Hp.
+Qed.
+
+Theorem published_requires_permit w s ev :
+  reachable w s ->
+  let o := snd (step w s ev) in
+  (match ev with ERtsp _ _ _ _ | EWsRtsp _ _ _ => True | _ => False end) ->
+  ev_ok s ev = true ->
+  zlist_eqb (o_reg o) (reg_view w (reg s)) = false ->
+  exists u r, identity s ev = Some u /\ rights_now (users s) u = Some r /\
+              fst (target s ev) = APush /\ permits r PUSH (served_key (snd (target s ev))) = true.
+Proof.
+  intros Hr o Hev He Hd.
+  destruct (publish_requires_push w s ev Hr Hev Hd) as (u & r & Hi & Hn & Ht & Hp).
+  exists u, r. repeat split; auto.
+  apply ev_ok_target in He. unfold path_ok in He.
+  destruct r as [[a push] pull]. cbn in *. rewrite <- (spec_permit_same_segs a push _ _ He). exact Hp.
+Qed.
+
+Theorem holder_of_served_not_refused w s ev :
+  reachable w s -> is_request ev = true -> ev_ok s ev = true ->
+  allowed s ev = true -> feasible w s ev = true ->
+  accepted ev (snd (step w s ev)) = true.
+Proof.
+  intros Hr Hq He Ha Hf. rewrite (allowed_ok _ _ He) in Ha. eapply holder_not_refused; eauto.
+Qed.
+
+(* the paths on which both readings agree include every path without blanks (C18: CanonicalPath is stable there) *)
+Example path_ok_examples :
+  path_ok (bs "/a/b") = true /\ path_ok (bs "/A/b ") = true /\ path_ok (bs "/a /b") = true /\
+  path_ok (canonical_path (bs "/a//c/../B/.")) = true /\
+  path_ok (bs "/a/b/..") = false /\ path_ok (bs "/a/. ") = false.
+Proof. vm_compute. repeat split; reflexivity. Qed.
+
+(* known finding: CanonicalPath is not idempotent on a blank-edged dot segment; the rtsp session checks the right
+   on CanonicalPath(url) = "/a/. " (segments a, .) and the registry serves CanonicalPath of that = "/a":
+   eve, whose pull right /a/+ does not cover /a, is given /a's description.  Outside the class ev_ok. *)
+Definition w2 : list bytes := [bs "/a"; bs "/a/b"].
+Definition s2 : state := state0 [mk "eve" "pe" false "" "/a/+"] [bs "/a"].
+Definition mk_eve : user := mk "eve" "pe" false "" "/a/+".
+Definition w2_a : bytes := bs "/a".
+Definition unsettled_evs : list event :=
+  [ERtspOpen; ERtsp 0 M_DESCRIBE (bs "/a/. /x/..") (CDigest (bs "eve") (bs "pe") 0 0)].
+
+Theorem unsettled_path_refuted :
+  ok_run_strict w2 s2 unsettled_evs (run w2 s2 unsettled_evs) = false /\
+  ok_run w2 s2 unsettled_evs (run w2 s2 unsettled_evs) = true /\
+  map o_code (run w2 s2 unsettled_evs) = [0; 200] /\
+  spec_allows (users s2) (u_name (mk_eve)) APull (w2_a) = false.
+Proof. vm_compute. repeat split; reflexivity. Qed.
+
+(* before the repair of extractStreamPathAndExt: /streams/a/b/...flv is the clean URL of the stream path /a/b/.. ;
+   bob (pull /a/b/+... only below /a/b) was checked on that spelling and served /a *)
+Definition s3 : state :=
+  fst (step w2 (state0 [mk "bob" "pb" false "" "/a/b/*"] [bs "/a"]) (ELogin (bs "bob") (bs "pb"))).
+Definition spelled_evs : list event := [EHttp 0 (bs "/a/b/..") (TA 0) 0 []; EWsOpen 3 (bs "/a/b/..") (TA 0) 0 []].
+
+Theorem url_spelling_refuted :
+  ok_run w2 s3 spelled_evs (run_gen false w2 s3 spelled_evs) = false /\
+  map o_code (run_gen false w2 s3 spelled_evs) = [200; 101] /\
+  map o_code (run w2 s3 spelled_evs) = [403; 403] /\
+  ok_run w2 s3 spelled_evs (run w2 s3 spelled_evs) = true.
+Proof. vm_compute. repeat split; reflexivity. Qed.
+
+(* non-vacuity of the served-resource theorem: a non-canonical spelling that stays inside the subtree is served,
+   one that leaves it is refused, on the plain RTSP entry point *)
+Definition s4 : state := state0 [mk "bob" "pb" false "" "/a/*"] [bs "/a/b"; bs "/x"].
+Definition cred_bob : cred := CDigest (bs "bob") (bs "pb") 0 0.
+Definition inside_evs : list event :=
+  [ERtspOpen; ERtsp 0 M_DESCRIBE (bs "/a/c/..//B/.") cred_bob; ERtsp 0 M_DESCRIBE (bs "/a/../x") cred_bob;
+   ERtsp 0 M_DESCRIBE (bs "/a/%2e%2e/x") cred_bob].
